@@ -217,6 +217,24 @@ func checkC15(c *mc.Ctx) {
 		}
 	})
 	c.Ev.AddScenario(mc.Scenario{Name: "all MJD values x {00:00:00, 23:59:59, 12:34:56}, decode and encode", SpaceSize: days * 3 * 2, Executed: done * 3 * 2, Exhaustive: done == days})
+	// "any time.Time in that range": instants that are not whole seconds encode as the second they lie in
+	// (the five bytes have no finer resolution), in particular in the last second of a day
+	subs := []time.Duration{1, 499999999, 500000000, 999999999}
+	doneS := mc.ParFor(days, nil, func(i int64) {
+		for _, t := range [][3]int{{0, 0, 0}, {23, 59, 59}, {11, 59, 59}, {12, 0, 59}} {
+			whole := ref.MJDToDate(mjdLo + int(i)).Add(time.Duration(t[0])*time.Hour + time.Duration(t[1])*time.Minute + time.Duration(t[2])*time.Second)
+			want := ref.DVBTime(whole)
+			for _, ns := range subs {
+				tt := whole.Add(ns)
+				got, n, err := astits.VerifWriteDVBTime(tt)
+				if err != nil || n != 5 || string(got) != string(want[:]) {
+					rep("encode-bytes:sub-second", map[string]any{"time": tt.String(), "message": fmt.Sprintf("encoded %x (n=%d err=%v), want %x (the second the instant lies in)", got, n, err, want)})
+				}
+			}
+		}
+	})
+	c.Ev.AddScenario(mc.Scenario{Name: "all MJD values x 4 times of day x 4 sub-second offsets, encode", SpaceSize: days * 16, Executed: doneS * 16, Exhaustive: doneS == days})
+	c.Ev.DistinctAdd(doneS * 16)
 	c.Ev.DistinctAdd(done * 3)
 	// all seconds of the day x boundary days
 	var bdays []int
@@ -285,6 +303,13 @@ func checkC15(c *mc.Ctx) {
 				}
 				if got, n, err := astits.VerifWriteDVBDurationSeconds(d3); err != nil || n != 3 || string(got) != string(b3) {
 					rep("duration-seconds-encode", map[string]any{"duration": d3.String(), "message": fmt.Sprintf("encoded %x, want %x", got, b3)})
+				}
+				if s%7 == 0 { // durations with a sub-second part encode as their whole seconds
+					for _, ns := range []time.Duration{1, 500000000, 999999999} {
+						if got, n, err := astits.VerifWriteDVBDurationSeconds(d3 + ns); err != nil || n != 3 || string(got) != string(b3) {
+							rep("duration-seconds-encode:sub-second", map[string]any{"duration": (d3 + ns).String(), "message": fmt.Sprintf("encoded %x, want %x", got, b3)})
+						}
+					}
 				}
 			}
 		}
